@@ -35,6 +35,7 @@ inductive CEv where
   | icdf (ftb : Nat) (tbl : List Nat) (v : Nat)   -- ec_dec_icdf
   | bin (bits fm : Nat)                       -- ec_decode_bin
   | upd (fl fh ft : Nat)                      -- ec_dec_update
+  | dec (ft fs : Nat)                         -- ec_decode
   deriving Repr, DecidableEq, Inhabited
 
 /-- Static configuration of a CELT frame as `opus_decode_frame` sets it up. -/
